@@ -25,8 +25,10 @@ def sites : List (Nat × Nat × Nat) := [
   (3, 50, 1),  -- messages/block_locator.rs  fn write: .write_u32
   (4, 138, 1),  -- messages/cmpctblock.rs  fn write: .write_u64
   (4, 143, 0),  -- messages/cmpctblock.rs  fn write: .write_all
-  (5, 70, 1),  -- messages/createstrm.rs  fn write: .write_u8
-  (5, 75, 0),  -- messages/createstrm.rs  fn write: .write_all
+  (5, 67, 1),  -- messages/createstrm.rs  fn write: .write_u8
+  (5, 68, 0),  -- messages/createstrm.rs  fn write: .write_all
+  (5, 71, 1),  -- messages/createstrm.rs  fn write: .write_u8
+  (5, 76, 0),  -- messages/createstrm.rs  fn write: .write_all
   (6, 26, 1),  -- messages/fee_filter.rs  fn write: .write_u64
   (7, 37, 0),  -- messages/filter_add.rs  fn write: .write_all
   (8, 49, 0),  -- messages/filter_load.rs  fn write: .write_all
@@ -55,7 +57,9 @@ def sites : List (Nat × Nat × Nat) := [
   (18, 78, 0),  -- messages/reject.rs  fn write: .write_all
   (19, 34, 1),  -- messages/send_cmpct.rs  fn write: .write_u8
   (19, 35, 1),  -- messages/send_cmpct.rs  fn write: .write_u64
-  (20, 60, 1),  -- messages/streamack.rs  fn write: .write_u8
+  (20, 57, 1),  -- messages/streamack.rs  fn write: .write_u8
+  (20, 58, 0),  -- messages/streamack.rs  fn write: .write_all
+  (20, 61, 1),  -- messages/streamack.rs  fn write: .write_u8
   (21, 206, 1),  -- messages/tx.rs  fn write: .write_u32
   (21, 215, 1),  -- messages/tx.rs  fn write: .write_u32
   (22, 45, 0),  -- messages/tx_in.rs  fn write: .write_all
@@ -69,14 +73,14 @@ def sites : List (Nat × Nat × Nat) := [
   (24, 101, 0),  -- messages/version.rs  fn write: .write_all
   (24, 102, 1),  -- messages/version.rs  fn write: .write_i32
   (24, 103, 1),  -- messages/version.rs  fn write: .write_u8
+  (24, 106, 1),  -- messages/version.rs  fn write: .write_u8
+  (24, 107, 0),  -- messages/version.rs  fn write: .write_all
   (25, 122, 0),  -- util/bloom_filter.rs  fn write: .write_all
   (25, 123, 1),  -- util/bloom_filter.rs  fn write: .write_u64
   (25, 124, 1),  -- util/bloom_filter.rs  fn write: .write_u32
   (26, 48, 0),  -- util/hash256.rs  fn write: .write_all
-  (27, 58, 0),  -- util/serdes.rs  fn write: .write_all
-  (27, 71, 0),  -- util/serdes.rs  fn write: .write_all
-  (27, 35, 4),  -- util/serdes.rs  fn write_u8_prefixed: .write
-  (27, 36, 0),  -- util/serdes.rs  fn write_u8_prefixed: .write_all
+  (27, 49, 0),  -- util/serdes.rs  fn write: .write_all
+  (27, 62, 0),  -- util/serdes.rs  fn write: .write_all
   (28, 23, 1),  -- util/var_int.rs  fn write: .write_u8
   (28, 25, 1),  -- util/var_int.rs  fn write: .write_u8
   (28, 26, 1),  -- util/var_int.rs  fn write: .write_u16
